@@ -74,6 +74,8 @@ func cmdCheck(args []string) int {
 	known := fs.String("known", "/verif/KNOWN_FINDINGS.txt", "")
 	replace := fs.String("replace", "", "repoFile=localFile,... (overlay replacement; experiments only)")
 	noEv := fs.Bool("no-evidence", false, "do not write the evidence file (experiments)")
+	maxPaths := fs.Int("maxpaths", 0, "override every instance's path limit (experiments)")
+	timeoutS := fs.Int("timeout", 0, "override every instance's work budget in seconds (experiments)")
 	nwit := fs.Int("witness", 1, "completed paths per instance whose model is replayed natively (translator validation); 0 = off")
 	fs.Parse(args)
 	verbose = *cf.v
@@ -95,6 +97,12 @@ func cmdCheck(args []string) int {
 		}
 		if *only != "" && !strings.Contains(in.Name, *only) {
 			continue
+		}
+		if *maxPaths > 0 {
+			in.MaxPaths = *maxPaths
+		}
+		if *timeoutS > 0 {
+			in.TimeoutS = *timeoutS
 		}
 		insts = append(insts, in)
 	}
